@@ -824,6 +824,9 @@ func (vfs *OrefaFS) Rename(oldname, newname string) error {
 		err := vfs.err.FileExists
 		if vfs.OSType() == avfs.OsWindows {
 			err = avfs.ErrWinAccessDenied
+		} else if !nChild.mode.IsDir() {
+			// A directory can't replace a file.
+			err = vfs.err.NotADirectory
 		}
 
 		return &os.LinkError{Op: op, Old: oldname, New: newname, Err: err}
